@@ -91,6 +91,28 @@ theorem fact_template_tls_lines : Generated.Tls.templateTLSLines =
      "{{ $proxyOrGRPC }}_ssl_name {{ $l.ProxySSLVerify.Name }};",
      "{{ $proxyOrGRPC }}_ssl_trusted_certificate {{ $l.ProxySSLVerify.TrustedCertificate }};"] := by facts
 
+/-- secretResolver.resolve: a cached entry answers first; otherwise ONE verdict is computed and stored — whatever it
+is — before it is returned (`resolveCached`). A branch that returns without storing its error breaks this lemma. -/
+theorem fact_secret_resolver_cache : Generated.Tls.secretResolveBody =
+    ["if s, resolved := r.resolvedSecrets[nsname]; resolved { return s.err }",
+     "secret, exist := r.clusterSecrets[nsname]",
+     "var validationErr error",
+     "switch { case !exist: validationErr = errors.New(\"secret does not exist\") case secret.Type != apiv1.SecretTypeTLS: validationErr = fmt.Errorf(\"secret type must be %q not %q\", apiv1.SecretTypeTLS, secret.Type) default: _, err := tls.X509KeyPair(secret.Data[apiv1.TLSCertKey], secret.Data[apiv1.TLSPrivateKeyKey]) if err != nil { validationErr = fmt.Errorf(\"TLS secret is invalid: %w\", err) } }",
+     "r.resolvedSecrets[nsname] = &secretEntry{ Secret: Secret{ Source: secret, }, err: validationErr, }",
+     "return validationErr"] := by facts
+
+/-- processBackendTLSPolicies: every policy gets an entry of the processed map, an ignored one as invalid
+(`processBtp`); Generate: one freshly built PEM file per key pair (`generatePEM` allocates its own slice:
+`fact_generatePEM`) -/
+theorem fact_process_btp_and_keypair_loop :
+    Generated.Tls.processBTPLoop =
+      ["var caCertRef types.NamespacedName",
+       "valid, ignored, conds := validateBackendTLSPolicy(backendTLSPolicy, configMapResolver, ctlrName)",
+       "if valid && !ignored && len(backendTLSPolicy.Spec.Validation.CACertificateRefs) > 0 { caCertRef = types.NamespacedName{ Namespace: backendTLSPolicy.Namespace, Name: string(backendTLSPolicy.Spec.Validation.CACertificateRefs[0].Name), } }",
+       "processedBackendTLSPolicies[nsname] = &BackendTLSPolicy{ Source: backendTLSPolicy, Valid: valid, Conditions: conds, Gateway: types.NamespacedName{ Namespace: gateway.Source.Namespace, Name: gateway.Source.Name, }, CaCertRef: caCertRef, Ignored: ignored, }"] ∧
+    Generated.Tls.generateKeyPairLoop =
+      ["for id, pair := range conf.SSLKeyPairs", "files = append(files, generatePEM(id, pair.Cert, pair.Key))"] := by facts
+
 /-! ### key pair ids, file names, PEM bytes -/
 
 /-- Key pair ids (hence key pair file names) of different Secrets differ, for admissible namespaces:
@@ -432,5 +454,74 @@ theorem mismatch_ignores_configmap_namespace :
       some (bundleFileName (certBundleId ("team-a".toList, "ca-1".toList))) ∧
     -- the current loop tells them apart
     mismatch [some witnessP, some witnessPOther] = true := by decide +kernel
+
+/-! ### the Secret resolver's cache: one verdict per Secret, however often and in whatever order it is resolved -/
+
+/-- `resolve_cached_verdict_stable`: on one resolver (one graph build) the answer to EVERY call `resolve(k)` is the
+verdict of validating Secret `k` — the first call computes and stores it, every later call for the same Secret returns
+the same verdict. In particular two HTTPS listeners referencing one invalid Secret are both rejected. -/
+theorem resolve_cached_verdict_stable (secrets : List SecretObj) (ks : List (Name × Name)) :
+    resolveSeq secrets [] ks = ks.map (secretVerdict secrets) ∧
+    ∀ (i j : Nat) (k : Name × Name), ks[i]? = some k → ks[j]? = some k →
+      (resolveSeq secrets [] ks)[i]? = (resolveSeq secrets [] ks)[j]? := by
+  have h := resolveSeq_spec secrets ks [] (by intro k v hk; simp at hk)
+  refine ⟨h, ?_⟩
+  intro i j k hi hj
+  rw [h]
+  simp [List.getElem?_map, hi, hj]
+
+def witnessMalformed : List SecretObj := [⟨"default".toList, "tls-mal".toList, true, false, "X".toList, "Y".toList⟩]
+
+/-- non-vacuity, and the regression detector: a resolver that registers the entry up front but does not store the
+error of the malformed-pair branch answers `malformed` once and `ok` ever after (seeded change C16-r4m1) -/
+theorem resolve_unstored_error_false :
+    resolveSeq witnessMalformed [] [("default".toList, "tls-mal".toList), ("default".toList, "tls-mal".toList)] =
+      [.malformed, .malformed] ∧
+    resolveSeqUnstored witnessMalformed [] [("default".toList, "tls-mal".toList), ("default".toList, "tls-mal".toList)] =
+      [.malformed, .ok] := by decide +kernel
+
+/-! ### a Service targeted by a BackendTLSPolicy is never reached over plain HTTP -/
+
+/-- `targeted_service_never_plain`: when ANY BackendTLSPolicy of the Service's namespace targets the Service — valid,
+invalid, or ignored because its ancestor status list is full — the backendRef is either invalid (500, not reached) or
+proxied over verified TLS; never plain. -/
+theorem targeted_service_never_plain (cms : List CMObj) (pols : List BTP) (refNs refName : Name) (b : BTP)
+    (hb : b ∈ pols) (ht : targetsSvc b refNs refName = true) :
+    backendTLSOf (processBtp cms pols) refNs refName ≠ .plain := by
+  have hp : (⟨b, (validateBTP cms b).1, (validateBTP cms b).2, b.caName cms⟩ : ProcBTP) ∈ processBtp cms pols :=
+    List.mem_map.mpr ⟨b, hb, rfl⟩
+  have hs := findProc_isSome (refNs := refNs) (refName := refName) hp ht
+  unfold backendTLSOf
+  cases hf : findProc (processBtp cms pols) refNs refName with
+  | none => rw [hf] at hs; cases hs
+  | some p => simp only; split <;> (try split) <;> simp
+
+/-- `ignored_policy_fails_closed`: when the policy selected for the Service (oldest, then namespace/name) is IGNORED
+(16 ancestor entries of other controllers: no status can be written), the backendRef is INVALID — the rule answers 500;
+the Service is not proxied without TLS. -/
+theorem ignored_policy_fails_closed (cms : List CMObj) (pols : List BTP) (refNs refName : Name) (p : ProcBTP)
+    (hsel : findProc (processBtp cms pols) refNs refName = some p) (hfull : p.pol.full = true) :
+    backendTLSOf (processBtp cms pols) refNs refName = .invalid ∧ p.ignored = true := by
+  obtain ⟨hm, _⟩ := findProc_mem hsel
+  obtain ⟨b, _, rfl⟩ := List.mem_map.mp hm
+  have hv := full_invalid cms b hfull
+  have hfull' : b.full = true := hfull
+  refine ⟨?_, by simp [validateBTP, hfull']⟩
+  unfold backendTLSOf
+  rw [hsel]
+  simp [hv]
+
+def witnessIgnored : BTP := { witnessP with full := true }
+
+/-- non-vacuity, and the regression detector: a `processBackendTLSPolicies` that does not track ignored policies
+(seeded change C16-r4m2) lets the targeted Service be proxied over plain HTTP -/
+theorem ignored_policy_dropped_false :
+    findProc (processBtp witnessCMs [witnessIgnored]) "default".toList "svc-b".toList =
+      some ⟨witnessIgnored, false, true, []⟩ ∧
+    backendTLSOf (processBtp witnessCMs [witnessIgnored]) "default".toList "svc-b".toList = .invalid ∧
+    backendTLSOf (processBtpDropping witnessCMs [witnessIgnored]) "default".toList "svc-b".toList = .plain ∧
+    -- the same policy, not ignored: verified TLS against the referenced CA
+    backendTLSOf (processBtp witnessCMs [witnessP]) "default".toList "svc-b".toList =
+      .verify ⟨certBundleId ("default".toList, "ca-1".toList), "b.example.com".toList, []⟩ := by decide +kernel
 
 end NGF.Tls
